@@ -420,6 +420,9 @@ def imul(a, b):
             w = bits_for(lo, hi)
             r = mk(a.ext(w) << k, lo, hi)
             return r if c > 0 else ineg(r)
+        # other constants: an ordinary bit-vector product with a constant (not a shared symbolic product)
+        lo, hi = sorted((a.lo * c, a.hi * c))
+        return _bin(a, b, lambda x, y: x * y, lo, hi)
     c = [a.lo * b.lo, a.lo * b.hi, a.hi * b.lo, a.hi * b.hi]
     if EX is not None and SHARE_PRODUCTS:
         return EX.product(a, b, _min(c), _max(c))
